@@ -22,7 +22,7 @@ var cbKinds = []string{
 	"resealed-same-record", "resealed-other-uri", "resealed-other-id",
 	"state-other-secret", "cookie-other-secret", "both-other-secret",
 	"state-garbage", "cookie-garbage", "state-truncated", "cookie-truncated", "state-empty", "state-missing",
-	"reenc-state-crlf", "reenc-state-tail", "reenc-cookie-tail",
+	"reenc-state", "reenc-cookie", "reenc-dup",
 	"dup-state", "dup-cookie",
 	"replay-new-code", "replay-same-code",
 	"sessions-as-flow", "session-and-flow-value", "session-and-garbage",
@@ -93,6 +93,10 @@ func runCallback(rep *vh.Report, env vh.Env, worlds []*world, i int) {
 	kind := cbKinds[(i/len(worlds))%len(cbKinds)]
 	wordf := func(n int) string { return word(r, n) }
 	rep.Eval()
+	if strings.HasPrefix(kind, "reenc-") {
+		runReenc(rep, env, w, r, i, kind)
+		return
+	}
 
 	// the authenticator's answer
 	redeem := "ok"
@@ -266,29 +270,6 @@ func runCallback(rep *vh.Report, env vh.Env, worlds []*world, i int) {
 		states = []string{""}
 	case "state-missing":
 		states = nil
-	case "reenc-state-crlf":
-		ins := []string{"\r", "\n", "\r\n"}[r.Intn(3)]
-		pos := []int{0, len(fa.CSRF) / 2, len(fa.CSRF), 1 + r.Intn(len(fa.CSRF)-1)}[r.Intn(4)]
-		variant = fmt.Sprintf("%q inserted", ins)
-		states = []string{insertAt(fa.CSRF, pos, ins)}
-	case "reenc-state-tail":
-		v, ok := tailVariant(fa.CSRF)
-		if !ok {
-			// no spare bits in this length: fall back to a line break
-			v = fa.CSRF + "\n"
-			variant = "LF appended (no spare bits)"
-		} else {
-			variant = "non-canonical trailing bits"
-		}
-		states = []string{v}
-	case "reenc-cookie-tail":
-		v, ok := tailVariant(fa.State)
-		if !ok {
-			rep.Count("b_skipped_no_spare_bits", 1)
-			return
-		}
-		variant = "non-canonical trailing bits"
-		states, cookies = []string{fa.State}, []string{v}
 	case "dup-state":
 		states = []string{fb.State, fa.State}
 		if r.Intn(2) == 0 {
@@ -535,9 +516,6 @@ func runCallback(rep *vh.Report, env vh.Env, worlds []*world, i int) {
 		rep.Count("b_sessions_set", 1)
 		if len(failing) > 0 {
 			sig := "callback: session-set failing=" + strings.Join(failing, "+")
-			if strings.HasPrefix(kind, "reenc-") && len(failing) == 1 && failing[0] == "same-ciphertext" {
-				sig = "callback: state-is-reencoded-csrf-cookie-accepted"
-			}
 			rep.Violate(streamCB, i, sig, fmt.Sprintf("/oauth2/callback (%s, %s%s) set a session cookie although: %s", kind, variant, phase, strings.Join(failing, ", ")), kc)
 		} else {
 			switch {
